@@ -248,6 +248,15 @@ func startMemGuard() {
 				time.Sleep(100 * time.Millisecond)
 				runtime.ReadMemStats(&ms)
 				if ms.HeapAlloc+ms.StackInuse > memLimit || ms.StackInuse > stackLimit {
+					// not-yet-collected garbage does not count (a starved collector on a loaded
+					// machine lets HeapAlloc overshoot): collect, then look at what is really live
+					first := ms
+					runtime.GC()
+					runtime.ReadMemStats(&ms)
+					if !(ms.HeapAlloc+ms.StackInuse > memLimit || ms.StackInuse > stackLimit) {
+						fmt.Fprintf(os.Stderr, "c20 memory guard: transient peak heap=%d stack=%d, after GC heap=%d stack=%d (ignored)\n", first.HeapAlloc, first.StackInuse, ms.HeapAlloc, ms.StackInuse)
+						continue
+					}
 					buf := make([]byte, 4<<20)
 					buf = buf[:runtime.Stack(buf, true)]
 					fr := "(no helm frame found)"
@@ -257,7 +266,7 @@ func startMemGuard() {
 					if len(buf) > 20000 {
 						buf = buf[:20000]
 					}
-					fmt.Fprintf(os.Stderr, "fatal error: c20 memory guard: heap+stack beyond the limit for an input of at most 64 KiB (unbounded growth)\n%s(...)\n\n%s\n", fr, buf)
+					fmt.Fprintf(os.Stderr, "fatal error: c20 memory guard: heap+stack beyond the limit for an input of at most 64 KiB (unbounded growth)\n%s(...)\nlive after a forced collection: heap=%d stack=%d bytes\n\n%s\n", fr, ms.HeapAlloc, ms.StackInuse, buf)
 					os.Exit(3)
 				}
 			}
